@@ -23,6 +23,19 @@ def noop(ctx, args, kwargs):
 noop.modifies = []
 
 
+def disconnect_notification(ctx, args, kwargs):
+    """FromEngine.publish_engine_disconnected_notification(engine_id): reads self._engine_data_map[engine_id] (KeyError otherwise), so it must
+    be issued while the engine's data is still registered; the web push itself has no effect on aggregator state"""
+    from pyvc import heapops as H
+    m = ctx.spec("self._engine_data_map")
+    ctx.check_w("disconnect-notification-is-issued-while-the-engine-data-is-still-registered",
+                H.dict_has(ctx.st, RID(m.term), args[0].term), lambda model: {"call": "publish_engine_disconnected_notification"}, "call-site")
+    return ctx.none()
+
+
+disconnect_notification.modifies = []
+
+
 def with_scope(ctx, phase, kwargs):
     """database.create_scope(): context manager without effect on aggregator state"""
     return None
